@@ -1553,6 +1553,11 @@ func (vc *FuncVC) ret(b *ssa.BasicBlock, idx int, x *ssa.Return, st *State, defs
 		res = append(res, vc.val(r))
 	}
 	extra := vc.resultVars(res, vc.fn.Signature.Results())
+	for i, n := range vc.con.ResultNames {
+		if i < len(res) {
+			extra[n] = SVal{res[i], vc.fn.Signature.Results().At(i).Type()}
+		}
+	}
 	env := &Env{vc: vc, st: st, old: vc.entry, vars: map[string]SVal{}}
 	env.lookup = vc.resolver(defs, b, idx, st, nil, extra)
 	for _, en := range vc.con.Ensures {
